@@ -4,6 +4,11 @@
                                            every sequence prefix ++ w, w in alphabet^depth (lexicographic)
      J <r u c t  r u c t> ...              pairs of parts for mpt_linepart_join
      C <v> ...                             values for mpt_linepart_code / mpt_linepart_real
+     P <dim> | <dim> ... [& <dim> | ...]   polyline::set per frame on one polyline (see harness/c18_linepart.cpp);
+                                           <dim> = <min> <max> <v>... | X | Z | F <v>...
+     R <dim> | <dim> ...                   P with one frame, then linepart::array::set(-1)
+     A <n> <dim> | <dim> ...               apply_data without part records
+     W <v> ...                             linepart::set_cut / set_trim / cut() / trim()
    value syntax: <num>/<exp>[*<count>]  =  num * 2^-exp, repeated count times.
    Prints "M <id> tok..." (mechanism model) and "S <id> tok..." (specification). *)
 let z_of_int i = if i = 0 then Z0 else if i > 0 then Zpos (pos_of_int i) else Zneg (pos_of_int (- i))
@@ -68,6 +73,54 @@ let rec join_pairs toks = match toks with
     (mk r1 u1 c1 t1, mk r2 u2 c2 t2) :: join_pairs rest
   | _ -> []
 
+
+(* ---- polyline ---- *)
+let rec split_on sep toks =
+  let rec go cur acc l = match l with
+    | [] -> List.rev (List.rev cur :: acc)
+    | t :: r when t = sep -> go [] (List.rev cur :: acc) r
+    | t :: r -> go (t :: cur) acc r in
+  go [] [] toks
+let store_of toks = match toks with
+  | "X" :: _ -> SNone
+  | "F" :: _ -> SNone
+  | "Z" :: _ -> SData (None, [])
+  | mn :: mx :: vs -> SData (range_of mn mx, values vs)
+  | _ -> SNone
+let stores_of toks = List.map store_of (List.filter (fun d -> d <> []) (split_on "|" toks))
+let z_int z = int_of_z z
+let show_points pts =
+  (* run-length encoded like the harness: equal neighbours are written once with *count *)
+  let n = List.length pts in
+  let buf = Buffer.create 256 in
+  Buffer.add_string buf (Printf.sprintf "n%d" n);
+  let rec go l = match l with
+    | [] -> ()
+    | (x, y) :: r ->
+      let same (a, b) = qeq_bool a x && qeq_bool b y in
+      let rec cnt l k = match l with p :: r when same p -> cnt r (k + 1) | _ -> (k, l) in
+      let (k, rest) = cnt r 1 in
+      Buffer.add_string buf (Printf.sprintf ",%s:%s%s" (str_of_q x) (str_of_q y) (if k > 1 then Printf.sprintf "*%d" k else ""));
+      go rest in
+  go pts; Buffer.contents buf
+let show_view v = Printf.sprintf "L%d+%d/P%d+%s" (z_int v.line_off) (z_int v.line_len) (z_int v.pts_off)
+    (match v.pts_len with Z0 -> "0" | Zpos p -> if List.length (String.split_on_char 'f' (hex_of_pos p)) > 8 then "0x" ^ hex_of_pos p else string_of_int (int_of_pos p) | Zneg _ -> "neg")
+let sum_of f ps = List.fold_left (fun a p -> a + z_int (f p)) 0 ps
+let show_frame st ok =
+  let ps = st.vis in
+  let parts = String.concat "" (List.map (fun p -> show_part p ^ ",") ps) in
+  let tot = sum_of (fun p -> p.raw) ps in
+  [ (if ok then "set=1" else "set=0");
+    Printf.sprintf "%s=%d,u%d,r%d" parts tot (sum_of (fun p -> p.usr) ps) tot;
+    show_points st.pts;
+    (let e = Printf.sprintf "E%d+%d" (z_int end_view.line_len) (z_int end_view.pts_len) in
+     match polyline_walk st with
+     | WDone vs -> String.concat "," ("it" :: List.map show_view vs @ [e])
+     | WEndless vs -> String.concat "," ("it" :: List.map show_view vs @ ["ENDLESS"; e])) ]
+let spec_dim s = match s with
+  | SNone -> "X"
+  | SData (r, d) -> spec_seq ";" r d
+
 let () =
   let ic = open_in Sys.argv.(1) in
   List.iter (fun line ->
@@ -104,4 +157,43 @@ let () =
         match code_total v with
         | Some c -> Printf.sprintf "%d:%s" (int_of_z c) (str_of_q { qnum = c; qden = pow2_pos 16 })
         | None -> "-2:" ^ str_of_q { qnum = z_of_int 65534; qden = pow2_pos 16 }))
+    | id :: "P" :: toks ->
+      let frames = List.map stores_of (split_on "&" toks) in
+      let st = ref { vis = []; pts = [] } in
+      let out = List.concat_map (fun sts ->
+        match polyline_set !st sts with
+        | SetOk (ok, st') -> st := st'; show_frame st' ok
+        | SetStall -> ["STALL"]
+        | SetFault -> ["FAULT"]) frames in
+      Printf.printf "M %s %s\n" id (String.concat " " out);
+      Printf.printf "S %s %s\n" id (String.concat " & " (List.map (fun sts -> String.concat " " (List.map spec_dim sts)) frames))
+    | id :: "R" :: toks ->
+      let sts = stores_of toks in
+      let st0 = { vis = []; pts = [] } in
+      let (out, v) = match polyline_set st0 sts with
+        | SetOk (ok, st') -> (show_frame st' ok, st'.vis)
+        | SetStall -> (["STALL"], [])
+        | SetFault -> (["FAULT"], []) in
+      let v' = array_set v (z_of_int (-1)) in
+      Printf.printf "M %s %s %s\n" id (String.concat " " out)
+        (String.concat "" (List.map (fun p -> show_part p ^ ",") v') ^ "=" ^ string_of_int (sum_of (fun p -> p.raw) v'));
+      Printf.printf "S %s %s\n" id (String.concat " " (List.map spec_dim sts))
+    | id :: "A" :: n :: toks ->
+      let sts = stores_of toks in
+      let n = int_of_string n in
+      (match apply_data_plain (z_of_int n) sts with
+       | Ok (pts, proc) -> Printf.printf "M %s proc=%d %s\n" id (z_int proc) (show_points pts)
+       | Fault -> Printf.printf "M %s FAULT\n" id);
+      Printf.printf "S %s %s\n" id (String.concat " " (List.map spec_dim sts))
+    | id :: "W" :: vs ->
+      let data = values vs in
+      let one f = String.concat " " (List.map f data) in
+      let show okc c okt t = Printf.sprintf "%d.%d.%d.%d:%s:%s" (if okc then 1 else 0) c (if okt then 1 else 0) t
+          (str_of_q { qnum = z_of_int c; qden = XH }) (str_of_q { qnum = z_of_int t; qden = XH }) in
+      Printf.printf "M %s %s\n" id (one (fun v ->
+        let (a, c) = set_code (z_of_int 11) v and (b, t) = set_code (z_of_int 13) v in show a (z_int c) b (z_int t)));
+      Printf.printf "S %s %s\n" id (one (fun v ->
+        match code_total v with
+        | Some c -> show true (z_int c) true (z_int c)
+        | None -> show false 11 false 13))
     | _ -> ()) (read_lines ic)
